@@ -95,7 +95,9 @@ def _install_patches():
             if w is not None and w.in_job and \
                     getattr(self.client, 'login', None) == ROBOT:
                 op = w.shim.next_op(kind, name)
-                if w.shim.fail_from is not None and op >= w.shim.fail_from:
+                if w.shim.fail_from is not None and op >= w.shim.fail_from \
+                        and (w.shim.fail_until is None or
+                             op <= w.shim.fail_until):
                     raise requests.exceptions.ConnectionError(
                         'injected git-host failure (op %d, %s)' % (op, name))
             return orig(self, *a, **kw)
@@ -122,6 +124,30 @@ def _install_patches():
         return bare
     mock.Repository.get_git_url = get_git_url
 
+    orig_gprs = mock.Repository.get_pull_requests
+
+    def get_pull_requests(self, *a, **kw):
+        # a third party (the author) pushes while the job runs: placed right
+        # before one of the robot's reads of the pull-request list, which is
+        # the last moment at which the host can tell Bert-E about it
+        w = CURRENT[0]
+        if w is not None and w.in_job and w.armed_push and \
+                getattr(self.client, 'login', None) == ROBOT:
+            w.pr_list_reads += 1
+            if w.pr_list_reads == w.armed_push['nth']:
+                arm, w.armed_push = w.armed_push, None
+                w.in_job = False
+                try:
+                    ok = w.a_push_commit(arm['branch'], user=AUTHOR)
+                finally:
+                    w.in_job = True
+                w.mid_job_pushes.append(
+                    {'branch': arm['branch'], 'ok': ok,
+                     'before_pr_list_read': arm['nth'],
+                     'tip': w.rev('refs/heads/' + arm['branch'])})
+        return orig_gprs(self, *a, **kw)
+    mock.Repository.get_pull_requests = get_pull_requests
+
     wrap(mock.PullRequestController, 'add_comment', 'host')
     wrap(mock.PullRequestController, 'decline', 'host')
     wrap(mock.PullRequestController, 'set_bot_status', 'host')
@@ -134,6 +160,7 @@ class Shim:
         self.dir = d
         os.makedirs(d, exist_ok=True)
         self.fail_from = None
+        self.fail_until = None
         self.reset_counters()
 
     def reset_counters(self):
@@ -144,9 +171,15 @@ class Shim:
         self.hostlog = []
 
     def set(self, fail_from=None, before_op=None, before_script=None,
-            leak_at=None, leak_mode=None, leak_text=None, trace_refs=False):
+            leak_at=None, leak_mode=None, leak_text=None, trace_refs=False,
+            fail_until=None, fail_match=None):
         self.fail_from = fail_from
+        self.fail_until = fail_until
         lines = []
+        if fail_until is not None:
+            lines.append('FAIL_UNTIL=%d' % fail_until)
+        if fail_match is not None:
+            lines.append("FAIL_MATCH='%s'" % fail_match)
         if trace_refs:
             lines.append('TRACE_REFS=1')
         if fail_from is not None:
@@ -197,6 +230,13 @@ class Shim:
             return None
         return {n: (b.get(n), a.get(n)) for n in set(a) | set(b)
                 if a.get(n) != b.get(n)}
+
+    def fail_match_hits(self):
+        try:
+            with open(os.path.join(self.dir, 'fail_match.hits')) as fh:
+                return len(fh.read().split())
+        except OSError:
+            return 0
 
     def ncommands(self):
         return self._read('n')
@@ -264,6 +304,9 @@ class World:
         self.records = []          # JobRecords
         self.clock = 0
         self.in_job = False
+        self.armed_push = None
+        self.pr_list_reads = 0
+        self.mid_job_pushes = []
         self.in_berte = False
         self.status_queries = []
         self.tip_history = {}      # branch -> [sha,...] every tip ever seen
@@ -557,6 +600,11 @@ class World:
         self.snap_tips()
         return p.returncode == 0
 
+    def a_arm_push_at_pr_read(self, branch, nth=1):
+        """the author pushes one more commit on `branch` DURING the next job,
+        right before the robot's nth read of the pull-request list"""
+        self.armed_push = {'branch': branch, 'nth': nth}
+
     def a_amend(self, branch, user=AUTHOR):
         self._sync_actor()
         self.git('checkout', '-q', '-B', branch, 'origin/' + branch)
@@ -603,6 +651,30 @@ class World:
             self.git('merge', '--abort', check=False)
             return False
         ok = self.git('push', '-q', 'origin', branch, check=False)
+        self.snap_tips()
+        return ok.returncode == 0
+
+    def a_resolve_conflict(self, wbranch, dst, source, user=AUTHOR):
+        """what the conflict message asks for: create the integration
+        branch from its destination, merge the source (previous integration
+        branch or feature branch) resolving the conflict, push it"""
+        self._sync_actor()
+        heads = self.refs()[0]
+        base = 'origin/' + (wbranch if wbranch in heads else dst)
+        self.git('checkout', '-q', '-B', wbranch, base)
+        if wbranch in heads:
+            p = self.git('merge', '-q', '--no-edit', '-X', 'theirs',
+                         'origin/' + dst, check=False, user=user)
+            if p.returncode != 0:
+                self.git('merge', '--abort', check=False)
+                return False
+        p = self.git('merge', '-q', '--no-edit', '-X', 'theirs', '-m',
+                     'resolve conflict with %s' % source, 'origin/' + source,
+                     check=False, user=user)
+        if p.returncode != 0:
+            self.git('merge', '--abort', check=False)
+            return False
+        ok = self.git('push', '-q', '-u', 'origin', wbranch, check=False)
         self.snap_tips()
         return ok.returncode == 0
 
@@ -711,14 +783,19 @@ class World:
             return rec
         self.in_job = True
         self.status_queries = []
+        self.pr_list_reads = 0
+        self.mid_job_pushes = []
         try:
             berte.put_job(job)
             berte.process_task()
         finally:
             self.in_job = False
+            self.armed_push = None
         after = self.snapshot()
         rec = {
             'kind': kind, 'arg': arg, 'kw': kw,
+            'mid_job_pushes': list(self.mid_job_pushes),
+            'pr_list_reads': self.pr_list_reads,
             'status_queries': list(self.status_queries),
             'status': job.status, 'details': job.details,
             'before': before, 'after': after,
